@@ -44,7 +44,7 @@ func c35Real() c35Anchors {
 		newGroup:      modPath + "/sql.Context.NewErrgroup",
 		confinedTypes: []string{modPath + "/sql.ByteBuffer"},
 		floors: map[string]int{"C35-F0": 4, "C35-P1": 16, "C35-P2": 12, "C35-P3": 20, "C35-P4": 15, "C35-P5": 1,
-			"C35-P6": 6, "C35-W1": 2, "C35-C1": 4, "C35-B1": 2, "C35-E1": 22},
+			"C35-P6": 6, "C35-W1": 2, "C35-C1": 4, "C35-B1": 2, "C35-B2": 3, "C35-E1": 22},
 		exceptions: map[string]string{
 			"C35-P4:resultForDefaultIter/batch/assign res = resultFromOkResult(…)": "the batch is replaced by the OkResult's result only after `if res.RowsAffected > 0 { panic }` on the same path: the discarded batch holds no rows (rows and OkResults never mix in one result set)",
 		},
@@ -66,15 +66,19 @@ func init() {
 			"the batch allocation agrees with the store discipline (append ⇒ length 0; index store ⇒ length = flush constant and the result is truncated to the counter before it is returned), the batch is flushed under `counter ==/>= K`, no assignment to the batch variable is reachable from a row store " +
 			"without passing through the select case that sends the batch (a batch is never reset or replaced while it holds unsent rows; one named exception), and the function's success return — reachable only after group.Wait() — returns that batch variable (the final partial batch is delivered); " +
 			"(P5) the two pipelines have the same stage/channel topology; (B1) the unsynchronised *sql.ByteBuffer that backs the encoded rows is touched by one stage only (and by the function itself only where no stage is running). " +
+			"(B2) pooled buffer life time, for every variable acquired as sync.Pool.Get().(*sql.ByteBuffer) in the loaded packages (today doQuery's buf): the values that may alias it are the variables assigned from calls that received it (the result r of the resultFor* calls); " +
+			"after an explicit Put no CFG path reaches a mention of the buffer or a hand-over of an alias (argument of a call such as the final callback, return, send, copy); a deferred Put is accepted when no alias is returned or a named result, nothing touches the buffer after the Put inside the deferred literal, " +
+			"and no earlier-registered defer (which runs later) mentions the buffer or an alias; the buffer is Put at most once on every path (never a deferred plus an explicit Put, two defers, a Put that can reach a Put, or a Put in a non-deferred closure); " +
+			"and every Put of such a buffer releases a variable acquired in the same function (a helper never releases its caller's buffer). Otherwise another connection obtains the buffer and encodes its rows over bytes that are still unsent. " +
 			"For the whole family and the dispatcher: (E1) the error result of every call of an iterator method, the client callback, the errgroup Wait, a function variable or a function of package server is either returned directly, or bound to a variable that, on every path on " +
 			"which it is non-nil and not io.EOF (branch conditions evaluated three-valued), reaches a return carrying it or a freshly constructed error before it is overwritten (deferred closures: stored into the function's named error result); a discarded error is a violation when a nil-error " +
 			"return is reachable afterwards. (P6) delivery: in doQuery, on every path after a successful resultFor* call, the caller's callback is invoked at most once, with the returned result, and a nil-error return without it is infeasible both when result.RowsAffected != 0 and when the processed flag is false (the paths are explored in those two worlds, conditions evaluated three-valued); that flag is " +
 			"written only from the pipelines' second result; inside a pipeline the flag is set only together with a callback call, and every batch the delivering stage receives is passed to the callback exactly once before the next receive (or the stage returns an error); (C1) every result struct literal built by a family " +
 			"function that was handed the column metadata sets its Fields from that parameter; (W1) the callback variable the delivering stage invokes is the caller's callback: it is never reassigned, or only to a wrapper that forwards its own arguments " +
 			"exactly once on every path to a copy saved before the assignment (a wrapper that refers to the variable it is stored in calls itself).",
-		NotCovered: "value encoding (RowToSQL / Type.SQL: C28), field metadata, the MySQL protocol writer in vitess (callback implementations), errgroup/context/channel semantics (trusted), concurrency across connections, affected-row counts of OkResults, " +
+		NotCovered: "value encoding (RowToSQL / Type.SQL: C28), field metadata, the MySQL protocol writer in vitess (callback implementations), errgroup/context/channel semantics (trusted), concurrency across connections other than the pooled-buffer life time (B2), a missing Put on some path (only a note: the buffer is garbage-collected, no result difference), aliases of the pooled buffer that are not results of a call receiving it (fields, globals) and goroutines that outlive the acquiring function, affected-row counts of OkResults, " +
 			"prepared-statement paths other than through doQuery, what the iterator itself produces",
-		Technique: "role discovery by types + def-use; AST shape of channel/WaitGroup operations; go/cfg must-pass-through and saturating path counters with three-valued branch evaluation (nil / io.EOF facts)",
+		Technique: "pooled-buffer release ordering (CFG reachability from every Put to uses of the buffer / hand-overs of call results that received it; defer ordering); role discovery by types + def-use; AST shape of channel/WaitGroup operations; go/cfg must-pass-through and saturating path counters with three-valued branch evaluation (nil / io.EOF facts)",
 		Run:       func(c *Ctx) { runC35(c, c35Real()) },
 		Fixture: func(c *Ctx, fx *Prog) {
 			fa := func(rel string) c35Anchors {
@@ -562,6 +566,7 @@ func runC35(c *Ctx, a c35Anchors) {
 	if !c.fixtureMode && a.pkgRel == "server" {
 		c35MetaFlags(c)
 	}
+	c35PoolRelease(c, &a, fl("C35-B2"))
 	pk := c.P.Pkg(a.pkgRel)
 	if pk == nil {
 		c.Undecided("C35-F0", "package", 0, "package "+a.pkgRel+" not loaded")
